@@ -11,8 +11,8 @@
 package evmsim
 
 import (
-	_ "embed"
 	"bytes"
+	_ "embed"
 	"fmt"
 	"math/big"
 	"strings"
@@ -97,9 +97,9 @@ type TxRecord struct {
 	Block   uint64
 	From    common.Address
 	// What the model did with it
-	Method  string
-	Reason  string // revert reason if failed
-	Compass common.Address
+	Method    string
+	Reason    string // revert reason if failed
+	Compass   common.Address
 	MessageID uint64
 }
 
@@ -134,7 +134,9 @@ func (c *Chain) BlockHash(n uint64) common.Hash {
 	return crypto.Keccak256Hash([]byte(fmt.Sprintf("%s/%d", c.RefID, n)))
 }
 
-func (c *Chain) signer() ethtypes.Signer { return ethtypes.NewLondonSigner(new(big.Int).SetUint64(c.ChainID)) }
+func (c *Chain) signer() ethtypes.Signer {
+	return ethtypes.NewLondonSigner(new(big.Int).SetUint64(c.ChainID))
+}
 
 func (c *Chain) mkTx(from *world.EthKey, to *common.Address, data []byte) *ethtypes.Transaction {
 	nonce := c.Nonces[from.Addr]
